@@ -9,6 +9,8 @@ import (
 	"fmt"
 	"io"
 	"net"
+	"runtime"
+	"strings"
 	"sync"
 	"time"
 
@@ -75,6 +77,40 @@ type listener struct {
 }
 
 func parseAddr(a string) (net.Addr, error) { return qmem.Addr(a), nil }
+
+// gate holds a dial in flight: the dialer's address parser (called by the dial
+// function once per dial) blocks until the script releases it.
+type gate struct {
+	entered chan struct{}
+	release chan struct{}
+}
+
+func (g *gate) parse(a string) (net.Addr, error) {
+	g.entered <- struct{}{}
+	<-g.release
+	return qmem.Addr(a), nil
+}
+
+// waitBlockedDialPeer waits until n goroutines are parked inside
+// Transport.DialPeer waiting for the shared dialer's result.
+func waitBlockedDialPeer(n int) {
+	buf := make([]byte, 1<<20)
+	for i := 0; i < 5000; i++ {
+		k := runtime.Stack(buf, true)
+		cnt := 0
+		for _, g := range strings.Split(string(buf[:k]), "\n\n") {
+			if strings.Contains(g, "quic.(*Transport).DialPeer") && strings.Contains(g, ".Await(") &&
+				(strings.Contains(g, "[select") || strings.Contains(g, "[chan receive")) {
+				cnt++
+			}
+		}
+		if cnt >= n {
+			return
+		}
+		time.Sleep(200 * time.Microsecond)
+	}
+	panic("callers did not reach the dialer")
+}
 
 func newListener(ctx context.Context, nw *qmem.Net, k int) *listener {
 	pc := nw.NewConn(addrA, false)
@@ -178,7 +214,33 @@ func run(c *hx.Ctx) {
 	if nLoop < 4 {
 		nLoop = 4
 	}
-	nCalls := c.N - nLoop
+	nShared := c.N / 4
+	if nShared < 8 {
+		nShared = 8
+	}
+	nCalls := c.N - nLoop - nShared
+	if nCalls < 8 {
+		nCalls = 8
+	}
+	sharedFixed := [][]sev{
+		{{call: 3}, {call: 2}, {ans: 3}}, // the second caller joins a dial made for another peer
+		{{call: 2}, {call: 3}, {ans: 2}},
+		{{call: 3}, {call: 2}, {ans: 2}},
+		{{call: 2}, {call: 2}, {ans: 4}},
+		{{call: 3}, {ans: 3}, {call: 2}}, // sequential: address already connected to another peer
+		{{call: 3}, {ans: 3}, {drop: true}, {call: 2}, {ans: 2}},
+		{{call: 3}, {call: 2}, {call: 4}, {ans: 4}}, // three callers
+		{{call: 2}, {call: 3}, {ans: 1}},            // nobody
+	}
+	for i := 0; i < nShared; i++ {
+		var es []sev
+		if i < len(sharedFixed) {
+			es = sharedFixed[i]
+		} else {
+			es = genShared(c)
+		}
+		sharedCase(c, es)
+	}
 	fixed := [][]ev{
 		{{who: 1}},
 		{{who: 2}, {who: 1}},
@@ -464,4 +526,193 @@ func loopCase(c *hx.Ctx, es []ev) {
 	}
 	cancel()
 	time.Sleep(2 * time.Millisecond)
+}
+
+// ---------------------------------------------------------------------------
+// overlapping DialPeer calls to the same address
+
+// sev: call = requested peer (model id 2..4), ans = who answers when the dial in
+// flight is released (model id 2..4, 1 = nobody), drop = the link at A is lost.
+type sev struct {
+	call int
+	ans  int
+	drop bool
+}
+
+func (e sev) term() string {
+	switch {
+	case e.drop:
+		return "CDrop"
+	case e.call != 0:
+		return hx.App("Call", hx.Z(int64(e.call)))
+	case e.ans == 1:
+		return "(Answer Nobody)"
+	default:
+		return hx.App("Answer", hx.App("Peer", hx.Z(int64(e.ans))))
+	}
+}
+
+func (e sev) String() string {
+	switch {
+	case e.drop:
+		return "drop-link"
+	case e.call != 0:
+		return fmt.Sprintf("DialPeer(peer%d, A)", e.call)
+	case e.ans == 1:
+		return "dial-completes:nobody"
+	default:
+		return fmt.Sprintf("dial-completes:peer%d-answers", e.ans)
+	}
+}
+
+func genShared(c *hx.Ctx) []sev {
+	var es []sev
+	n := 3 + c.Rng.Intn(5)
+	waiting := 0
+	linked := false
+	for len(es) < n {
+		r := c.Rng.Intn(100)
+		switch {
+		case r < 50:
+			es = append(es, sev{call: 2 + c.Rng.Intn(3)})
+			if !linked {
+				waiting++
+			}
+		case r < 85 && waiting > 0:
+			a := 2 + c.Rng.Intn(3)
+			if c.Rng.Intn(8) == 0 {
+				a = 1
+			}
+			es = append(es, sev{ans: a})
+			waiting = 0
+			linked = a != 1
+		case linked:
+			es = append(es, sev{drop: true})
+			linked = false
+		}
+	}
+	if waiting > 0 {
+		es = append(es, sev{ans: 2 + c.Rng.Intn(3)})
+	}
+	return es
+}
+
+func sharedCase(c *hx.Ctx, es []sev) {
+	ctx, cancel := context.WithCancel(context.Background())
+	defer cancel()
+	nw := qmem.NewNet()
+	ls := map[int]*listener{}
+	for _, e := range es {
+		if e.ans >= 2 && ls[e.ans] == nil {
+			ls[e.ans] = newListener(ctx, nw, e.ans-1)
+		}
+	}
+	g := &gate{entered: make(chan struct{}, 16), release: make(chan struct{})}
+	dpc := nw.NewConn("D", true)
+	d, err := pconn.NewTransport(ctx, quietLogger(), privs[0], &recorder{}, &pconn.Opts{}, 0, dpc, g.parse, nil)
+	if err != nil {
+		panic(err)
+	}
+	go func() { _ = d.Execute(ctx) }()
+	var terms, strs []string
+	for _, e := range es {
+		terms = append(terms, e.term())
+		strs = append(strs, e.String())
+	}
+	desc := map[string]any{"kind": "shared-dialer", "script": strs}
+	type res struct {
+		l   link.Link
+		err error
+	}
+	var chans []chan res
+	var req []int
+	inflight := false
+	waiting := 0
+	overlapDifferent := false
+	for _, e := range es {
+		switch {
+		case e.drop:
+			dropLink(d.Transport)
+		case e.call != 0:
+			ch := make(chan res, 1)
+			chans = append(chans, ch)
+			for _, r := range req[len(req)-waiting:] {
+				if r != e.call {
+					overlapDifferent = true
+				}
+			}
+			req = append(req, e.call)
+			x := pids[e.call-1]
+			_, linked := d.LookupLinkWithAddr(addrA)
+			go func() {
+				dctx, dcancel := context.WithTimeout(ctx, 4*time.Second)
+				defer dcancel()
+				l, _, err := d.DialPeer(dctx, x, addrA)
+				ch <- res{l, err}
+			}()
+			if linked {
+				// CheckAlreadyConnected answers at once
+				r := <-ch
+				ch <- r
+			} else {
+				if !inflight {
+					<-g.entered // the dialer was created and its dial function is held
+					inflight = true
+				}
+				waiting++
+				waitBlockedDialPeer(waiting)
+			}
+		default: // the dial in flight completes
+			if !inflight {
+				continue
+			}
+			if e.ans == 1 {
+				nw.Route(addrA, nil)
+			} else {
+				nw.Route(addrA, ls[e.ans].pc)
+			}
+			g.release <- struct{}{}
+			if e.ans == 1 {
+				time.Sleep(120 * time.Millisecond)
+				d.CancelDialer(addrA) // the dial function gives up
+			}
+			// all waiting callers return
+			for _, ch := range chans[len(chans)-waiting:] {
+				r := <-ch
+				ch <- r
+			}
+			inflight = false
+			waiting = 0
+		}
+	}
+	var obs []string
+	var obsI []int64
+	for i, ch := range chans {
+		o := int64(-2)
+		select {
+		case r := <-ch:
+			switch {
+			case r.err != nil:
+				o = -1
+			case r.l == nil:
+				o = 0
+			default:
+				o = zid(r.l.GetRemotePeer())
+				// the C05 statement itself
+				if r.l.GetRemotePeer() != pids[req[i]-1] {
+					c.Failf("dial-returned-other-peer", desc, "call %d: DialPeer(peer%d, A) reported success with a link to peer %d", i, req[i], o)
+				}
+			}
+		default:
+		}
+		obs = append(obs, hx.Z(o))
+		obsI = append(obsI, o)
+	}
+	desc["results"] = obsI
+	c.Case(hx.App("Shared", "1", hx.List(terms), hx.List(obs)), desc)
+	c.Class("shared-dialer")
+	if overlapDifferent {
+		c.Class("shared-dialer-different-peers-overlap")
+		c.Nontrivial(fmt.Sprint("s", strs))
+	}
 }
